@@ -136,6 +136,8 @@ def main(args):
     seed = core.base_seed()
     batch = runner.Batch('C07', tier, seed)
     n_small = TIERS[tier]['small']
+    if os.environ.get('VERIF_C07_SMALL'):
+        n_small = int(os.environ['VERIF_C07_SMALL'])
     n_rand = args.runs or TIERS[tier]['random']
     small = small_indices(seed, n_small)
     tasks = [('small', i) for i in small] + [('random', i) for i in range(n_rand)]
